@@ -99,6 +99,10 @@ func runC19case(t *vf.T, c c19case) {
 				stalled = stalled || o.Stalled
 			case o.Panic != nil:
 				t.Violate("concurrent-run-panic exec="+ex, fmt.Sprintf("%v at %s", o.Panic, o.PanicAt))
+			case o.RunErr == nil && o.ScanErr != nil && discarded:
+				// The result of a derived program can consist of the shared result's own tasks (a Func
+				// that returns its argument): scanning it after the discard may report an error.
+				t.Count("scans_failed_after_discard", 1)
 			case o.RunErr != nil || o.ScanErr != nil:
 				t.Violate(fmt.Sprintf("concurrent-run-failed discard=%v exec=%s", discarded, ex), fmt.Sprintf("run %d of %d concurrent runs over a shared result failed: run: %v scan: %v | %s", i, len(c.Derived), o.RunErr, o.ScanErr, specString(&sp)))
 			default:
